@@ -4,7 +4,7 @@ id=$1; w=/tmp/mut/$id; t=/tmp/mut/$id-target
 cd $w || exit 9
 echo "-- suite with change"; cargo test --workspace --no-fail-fast --offline --target-dir $t 2>&1 | grep -E "^test result" 
 echo "-- demo with change"; cargo test --offline --target-dir $t --test demo_$id 2>&1 | grep -E "^test result|^error" | head -3
-git stash -q -- src
+git diff -- src > /tmp/mut/$id.confirm.diff; git checkout -- src
 echo "-- demo without change"; cargo test --offline --target-dir $t --test demo_$id 2>&1 | grep -E "^test result|^error" | head -3
-git stash pop -q
+git apply /tmp/mut/$id.confirm.diff
 git diff --stat -- src | tail -1
